@@ -19,6 +19,9 @@ def sp():
     return sympy
 
 
+_SUMMARY = {}
+
+
 MATRIX_T = ("Matrix<",)
 
 
@@ -35,7 +38,7 @@ def is_vector_type(t):
 class Fun:
     """per-function symbolic environment"""
 
-    def __init__(self, fb, f, invariants=None):
+    def __init__(self, fb, f, invariants=None, extra_rels=None):
         self.fb = fb
         self.f = f
         self.cfg = f.cfg
@@ -46,6 +49,7 @@ class Fun:
         self.assume_atoms = set()
         self.wrap = {}
         self.approx_loops = set()
+        self.extra_rels = list(extra_rels or [])
 
     def sym(self, kind, root):
         name = "%s_%s" % (kind, root)
@@ -77,6 +81,24 @@ class Fun:
                 o = strip(f.obj(c))
                 if r and o["k"] in ("DeclRefExpr", "MemberExpr"):
                     out.append((c, r, nm, f.args(c)))
+        # containers handed to another function by non-const reference: sized by the callee's summary, otherwise unknown afterwards
+        for c in f.calls():
+            pt = c["callee"].get("ptypes") or []
+            args = f.args(c)
+            if c["callee"]["name"].startswith("operator"):
+                continue
+            for i_, a in enumerate(args):
+                if i_ >= len(pt):
+                    break
+                t = pt[i_]
+                if "&" not in t or t.startswith("const ") or "&&" in t:
+                    continue
+                if not (is_matrix_type(t) or is_vector_type(t)):
+                    continue
+                o = strip(a)
+                r = self.root(a)
+                if r and o["k"] in ("DeclRefExpr", "MemberExpr"):
+                    out.append((c, r, "call", (i_, args)))
         for n in f.all_nodes():
             if n["k"] == "DeclStmt":
                 for d in n["decls"]:
@@ -86,6 +108,78 @@ class Fun:
                             out.append((n, ("v", d["id"], d["name"]), "ctor", f.args(init)))
         self._mut = out
         return out
+
+    def _callee_sizes(self, call, pos, args, depth=0):
+        """size the callee gives to its pos-th parameter, in the caller's terms: tuple of expressions, 'unchanged', or None"""
+        key = call["callee"].get("key")
+        g = self.fb.fns.get(key) if key else None
+        if g is None or g.body is None or g.cfg is None or getattr(self, "_depth", 0) > 2:
+            return None
+        if pos >= len(g.params):
+            return None
+        cache = _SUMMARY.setdefault(key, {})
+        if pos not in cache:
+            gf = Fun(self.fb, g)
+            gf._depth = getattr(self, "_depth", 0) + 1
+            pid = g.params[pos]["id"]
+            muts = [m for m in gf._mutations() if m[1][:2] == ("v", pid)]
+            if not muts:
+                cache[pos] = ("unchanged", None)
+            else:
+                res = None
+                # one resize (or one forwarding call) that every normal path passes, nothing else
+                if len(muts) == 1 and muts[0][2] in ("resize", "call"):
+                    node, _, kind, a_ = muts[0]
+                    ok, _path = e1.must_pass(g.cfg, {g.cfg.stmt_block(node)})
+                    if ok:
+                        if kind == "resize":
+                            vals = tuple(gf.size_expr(x, node) for x in a_)
+                            if vals and None not in vals:
+                                res = vals
+                        else:
+                            sm = gf._callee_sizes(node, a_[0], a_[1])
+                            if sm not in (None, "unchanged"):
+                                res = sm
+                cache[pos] = ("sized", (res, gf)) if res is not None else (None, None)
+        tag, val = cache[pos]
+        if tag == "unchanged":
+            return "unchanged"
+        if tag is None:
+            return None
+        res, gf = val
+        S = sp()
+        sub = {}
+        for i_, p_ in enumerate(g.params):
+            if i_ >= len(args):
+                break
+            ty = p_.get("ty") or ""
+            nm = p_["name"]
+            if is_matrix_type(ty.replace("&", "").strip()):
+                d = self.dims(args[i_], call) if i_ != pos else None
+                if d and len(d) == 2 and None not in d:
+                    sub[gf.sym("R", nm)] = d[0]
+                    sub[gf.sym("C", nm)] = d[1]
+            elif is_vector_type(ty.replace("&", "").strip()):
+                d = self.dims(args[i_], call) if i_ != pos else None
+                if d and len(d) == 1 and d[0] is not None:
+                    sub[gf.sym("N", nm)] = d[0]
+            else:
+                e = self.size_expr(args[i_], call)
+                if e is not None:
+                    sub[gf.sym("P", nm)] = e
+        out = []
+        for r in res:
+            r2 = r.subs(sub, simultaneous=True)
+            left = [x for x in r2.free_symbols if str(x).split("_")[0] in ("R", "C", "N", "P") and x in gf.S.values() and x not in sub.values()]
+            if left:
+                return None
+            out.append(r2)
+        ismat = is_matrix_type((g.params[pos].get("ty") or "").replace("&", "").strip())
+        if ismat and len(out) >= 2:
+            return (out[0], out[1])
+        if not ismat and out:
+            return (out[0],)
+        return None
 
     def dims(self, cont, site):
         """(rows, cols) for a matrix / (size,) for a vector at `site`; None entries when unknown"""
@@ -123,6 +217,16 @@ class Fun:
             dom = cfg.dominates(nb, sb)
             if not dom and kind == "resize":
                 dom = self._optional_resize(node, sb)
+            if kind == "call":
+                sm = self._callee_sizes(node, args[0], args[1])
+                if sm == "unchanged":
+                    continue
+                if sm is not None and dom:
+                    if best is None or cfg.dominates(cfg.stmt_block(best[0]), nb):
+                        best = (node, "summary", sm)
+                    continue
+                dirty = True
+                continue
             if kind in ("resize", "ctor") and dom:
                 if best is None or cfg.dominates(cfg.stmt_block(best[0]), nb):
                     best = (node, kind, args)
@@ -138,6 +242,8 @@ class Fun:
             return None
         if best is not None:
             node, kind, args = best
+            if kind == "summary":
+                return args
             if kind == "clear":
                 return (sp().Integer(0),) if not ismat else (sp().Integer(0), sp().Integer(0))
             vals = [self.size_expr(a, node) for a in args]
@@ -344,7 +450,19 @@ class Fun:
                 if d["id"] in self.sub:
                     return ev(self.sub[d["id"]], depth + 1)
                 e = self.size_expr(n, site)
-                return (e, e) if e is not None else None
+                if e is not None:
+                    return (e, e)
+                cd = self._countdown(d["id"], site)
+                if cd is not None:
+                    loops["~wrap:" + d["name"]] = cd[2]
+                    loops["~approx"] = (S.Integer(0), S.Integer(1))
+                    return (cd[0], cd[1])
+                hl = self._hull(d["id"], depth)
+                if hl is not None:
+                    loops["~approx"] = (S.Integer(0), S.Integer(1))
+                    loops.update(hl[2])
+                    return (hl[0], hl[1])
+                return None
             if k == "BinaryOperator" and n["op"] in ("+", "-", "*"):
                 a, b = ev(kids(n)[0], depth + 1), ev(kids(n)[1], depth + 1)
                 if a is None or b is None:
@@ -360,6 +478,76 @@ class Fun:
         if r is None:
             return None
         return (r[0], r[1], loops)
+
+    def _writes_to(self, var_id):
+        out = []
+        for w in self.f.all_nodes():
+            if w["k"] in ("UnaryOperator", "BinaryOperator", "CompoundAssignOperator") and w.get("op") in ("++", "--", "=", "+=", "-=", "*=", "/="):
+                t = strip(kids(w)[0])
+                if t["k"] == "DeclRefExpr" and t["decl"]["id"] == var_id:
+                    out.append(w)
+        return out
+
+    def _decl_init(self, var_id):
+        for n in self.f.all_nodes():
+            if n["k"] == "DeclStmt":
+                for d in n["decls"]:
+                    if d["id"] == var_id:
+                        return n, d.get("init")
+        return None, None
+
+    def _countdown(self, var_id, site):
+        """'size_t k = E; do { k--; ... } while (k > 0);' : after the decrement k lies in [0, E - 1], provided E >= 1
+        (obligation returned as third component)"""
+        f = self.f
+        ws = self._writes_to(var_id)
+        if len(ws) != 1 or ws[0]["k"] != "UnaryOperator" or ws[0]["op"] != "--":
+            return None
+        dec = ws[0]
+        do = f.enclosing(dec, ("DoStmt",))
+        if do is None or not f.contains(do, site):
+            return None
+        body = [x for x in kids(do) if x["k"] == "CompoundStmt"]
+        if not body or not kids(body[0]) or strip(kids(body[0])[0]) is not dec and kids(body[0])[0] is not dec:
+            return None
+        if f.contains(dec, site):
+            return None
+        cond = strip(f.nodes[do["cond"]]) if "cond" in do else None
+        if cond is None or cond["k"] != "BinaryOperator" or cond["op"] not in (">", "!="):
+            return None
+        l, r = strip(kids(cond)[0]), strip(kids(cond)[1])
+        if not (l["k"] == "DeclRefExpr" and l["decl"]["id"] == var_id and r["k"] == "IntegerLiteral" and int(r["val"]) == 0):
+            return None
+        dn, init = self._decl_init(var_id)
+        if init is None or f.contains(do, dn):
+            return None
+        e = self.size_expr(init, dn)
+        if e is None:
+            return None
+        S = sp()
+        return (S.Integer(0), e - 1, e - 1)
+
+    def _hull(self, var_id, depth):
+        """a local that only ever receives loop/size expressions (pivot row: p = k; ... p = i): smallest and largest
+        value over all its assignments, each evaluated where it is made"""
+        if depth > 6:
+            return None
+        S = sp()
+        dn, init = self._decl_init(var_id)
+        if dn is None or init is None:
+            return None
+        srcs = [(init, dn)]
+        for w in self._writes_to(var_id):
+            if w["k"] != "BinaryOperator" or w["op"] != "=":
+                return None
+            srcs.append((kids(w)[1], w))
+        los, his, lps = [], [], {}
+        for e, at in srcs:
+            b = self.index_bounds(e, at)
+            if b is None:
+                return None
+            los.append(b[0]); his.append(b[1]); lps.update(b[2])
+        return (S.Min(*los) if len(set(los)) > 1 else los[0], S.Max(*his) if len(set(his)) > 1 else his[0], lps)
 
     # ---- facts
     def _rel(self, nd, tr):
@@ -474,11 +662,11 @@ class Fun:
             self.disjuncts, self.local_atoms = [], False
             return [], unparsed[0]
         inter = frozenset.intersection(*good)
-        rels = [relobj[k] for k in inter if k[0] == "rel"]
+        rels = [relobj[k] for k in inter if k[0] == "rel"] + self.extra_rels
         # for refutation: a witness has to satisfy every fact of at least one whole path
         pnames = {p_.get("name") for p_ in self.f.params}
         good = [fs for fs in good if not any(("atom", t, not v) in fs for t, v in self.assume_atoms)] or good
-        self.disjuncts = [[relobj[k] for k in fs if k[0] == "rel"] for fs in good]
+        self.disjuncts = [[relobj[k] for k in fs if k[0] == "rel"] + self.extra_rels for fs in good]
         self.local_atoms = collapsed[0] or any(k[0] == "atom" and k[1] not in pnames for fs in good for k in fs)
         return rels, unparsed[0]
 
@@ -597,11 +785,17 @@ def _nonneg_poly(S, e, depth=0):
     e = S.expand(e)
     if e.is_number:
         return e >= 0
-    if e.has(S.Min) and depth < 3:
-        # e = X - c*Min(a, b, ..) with c > 0:  Min <= each argument, so e >= X - c*a; enough that one argument works
-        for m in e.atoms(S.Min):
+    if (e.has(S.Min) or e.has(S.Max)) and depth < 3:
+        for m in list(e.atoms(S.Max)) + list(e.atoms(S.Min)):
             c = e.coeff(m)
-            if c.is_number and c < 0 and not (e - c * m).has(m):
+            if not c.is_number or c == 0 or (e - c * m).has(m):
+                continue
+            ismax = isinstance(m, S.Max)
+            if (ismax and c < 0) or (not ismax and c > 0):
+                # X - c*Max(..) >= 0 iff it holds for every argument; same for +c*Min(..)
+                return all(_nonneg_poly(S, e - c * m + c * a, depth + 1) for a in m.args)
+            # X + c*Max(..) >= X + c*a and X - c*Min(..) >= X - c*a for each argument: one working argument is enough
+            if (ismax and c > 0) or (not ismax and c < 0):
                 return any(_nonneg_poly(S, e - c * m + c * a, depth + 1) for a in m.args)
         return False
     if e.has(S.Min) or e.has(S.Max):
@@ -764,10 +958,10 @@ def sites(fun):
     return out
 
 
-def analyse(fb, f, invariants=None, public=True):
+def analyse(fb, f, invariants=None, public=True, extra_rels=None):
     """yields (site node, container text, index text, dim-kind, verdict, detail, witness)"""
     S = sp()
-    fun = Fun(fb, f, invariants)
+    fun = Fun(fb, f, invariants, extra_rels)
     res = []
     for c, cont, idxs, kind in sites(fun):
         d = fun.dims(cont, c)
@@ -790,7 +984,9 @@ def analyse(fb, f, invariants=None, public=True):
                 continue
             lo, hi, loops = b
             approx = loops.pop("~approx", None) is not None
+            extra_w = {k_[6:]: [loops.pop(k_)] for k_ in [k2 for k2 in loops if k2.startswith("~wrap:")]}
             wraps = {nm: ws for (nm, _), ws in fun.wrap.items() if nm in loops}
+            wraps.update(extra_w)
             cl, why = fun.control(c)
             loops = dict(cl, **loops)
             v = decide(S, lo, hi, dims[pos], rels, loops, unparsed, disjuncts=fun.disjuncts, blocked=why or (fun.local_atoms and "path condition on a local flag") or (approx and "triangular loop: start approximated by its smallest value"), wraps=wraps)
